@@ -55,6 +55,7 @@ def run_case(case):
         out["box"] = net.call(snd, do, timeout_ms=20000)
         net.settle(3000, quiet_ms=40)
         out["queues"] = net.drain_queues()
+        out["overflow"] = {a: c.chip.fifo_overflows for a, c in net.ctl.items()}
 
     try:
         net.sim.run_main(main)
@@ -78,7 +79,7 @@ def run_case(case):
     # nodes with allow_multicast off must not listen on a shared level address
     for a, (p0, open0) in out["regs"].items():
         n = spec[a]
-        if not n.get("mc", True) and open0 and p0 in level_addrs:
+        if not n.get("mc", True) and open0 and p0 in level_addrs and p0 != netaddr.pipe_address(a, 0, False):
             res.fail("C14/multicast-off-listens-on-level-address", "node %o (allow_multicast off) listens on level %d's address" % (a, level_addrs[p0]))
         if n.get("mc", True) and p0 != netaddr.level_address(eff_level(n)):
             res.fail("C14/level-address-wrong", "node %o pipe 0 on %s, its level is %d" % (a, p0.hex(), eff_level(n)))
@@ -89,8 +90,10 @@ def run_case(case):
         res.nontrivial = True
     sender_tag = "master" if snd == 0 else ("0o1" if snd == 1 else "level%d" % netaddr.level(snd))
     frames = air_frames(net.med, merge_all=False)
-    mine = [f for f in frames if f["src"] == str(snd)]
     want_frames = rfrag.fragment(snd, 0o100, 0, typ, msg)
+    mine = [f for f in frames if f["src"] == str(snd)]
+    if any_relay:
+        mine = mine[:len(want_frames)]  # later frames of the sender are its own relaying of copies that came back
     # ---- on air
     if members or True:
         want_addr = netaddr.level_address(target)
@@ -114,9 +117,16 @@ def run_case(case):
     # ---- reception
     def holds(a):
         return [f for f in out["queues"].get(a, []) if f[0] == snd and f[3] == typ and f[5] == msg]
+    # an unacknowledged burst of fragments can overrun a slow receiver's 3-level RX FIFO: that node lost a packet,
+    # the reception clause is not judged for it (the count is reported)
+    overrun = {a for a, k in out["overflow"].items() if k}
+    if overrun:
+        res.label("receiver-fifo-overrun")
     if not any_relay:
         for a in members:
             k = len(holds(a))
+            if a in overrun and k == 0:
+                continue
             if k != 1:
                 res.fail("C14/%s/level%d-from-%s" % ("not-received" if k == 0 else "received-twice", target, sender_tag),
                          "node %o of level %d holds the multicast %d times" % (a, target, k))
@@ -145,6 +155,8 @@ def run_case(case):
                 if len(holds(a)) != 1:
                     res.fail("C14/relay-does-not-queue", "relay %o holds the multicast %d times" % (a, len(holds(a))))
         for a in members:
+            if a in overrun:
+                continue
             if len(holds(a)) != 1 and not spec[a].get("relay"):
                 res.fail("C14/not-received/level%d-from-%s" % (target, sender_tag), "node %o holds the multicast %d times" % (a, len(holds(a))))
                 break
@@ -174,7 +186,8 @@ def _strategy():
                                                           "seed": st.integers(0, 9999), "poll": st.sampled_from([100, 500, 2000])}))
         nodes = []
         for a in sorted(pop):
-            n = {"addr": a, "kind": "net", "mcu": draw(mcu), "mc": draw(st.integers(0, 6)) != 0}
+            # (the master's own pipe-0 address IS the level-0 address, so it cannot opt out of level-0 multicasts)
+            n = {"addr": a, "kind": "net", "mcu": draw(mcu), "mc": a == 0 or draw(st.integers(0, 6)) != 0}
             if relay_case and draw(st.booleans()):
                 n["relay"] = True
             if draw(st.integers(0, 9)) == 0:
